@@ -47,6 +47,9 @@ def binder_forms(full):
         f.append(("orlet %s" % n, lambda xs, b, n=n: cat(("or", [("let", [n], xs), ("let", [n], I(2))]), b)))
         f.append(("iflet %s" % n, lambda xs, b, n=n: cat(("if", I(1), ("let", [n], xs), cat()), b)))
         f.append(("caplet %s" % n, lambda xs, b, n=n: cat(("cap", [], cat(("let", [n], xs), rd(n))), W("drop"), b)))
+        f.append(("optlet %s" % n, lambda xs, b, n=n: cat(("opt", ("let", [n], xs)), b)))
+        f.append(("optguardlet %s" % n, lambda xs, b, n=n: cat(("opt", cat(("sub", False, [], cat()), ("let", [n], xs))), b)))
+        f.append(("pluslet %s" % n, lambda xs, b, n=n: cat(I(0), ("plus", cat(("let", [n], xs), ("sub", False, [], cat()))), W("drop"), b)))
         f.append(("starlet %s" % n, lambda xs, b, n=n: cat(I(0), ("star", cat(("let", [n], xs), ("sub", False, [], cat()))), W("drop"), b)))
         f.append(("infixlet %s" % n, lambda xs, b, n=n: cat(("infix", "==", cat(("let", [n], xs), rd(n)), rd(n) if False else xs), b)))
         f.append(("blocklet %s" % n, lambda xs, b, n=n: cat(("block", [], ("let", [n], xs)), W("apply"), b)))
